@@ -12,7 +12,8 @@ RULE = ("every run starts with three fixed cases that iterate over ALL connector
         "channels (70 %) or from text over an alphabet containing the venue separators @ . : | / - _, double quote and backslash, and the "
         "market from upper-case concatenations or such text, sometimes empty). Each frame is parsed with serde_json::Value, read the way the venue's "
         "documented grammar reads it (key set checked) and also compared as raw JSON text for all 15 connectors (Gateio's `time` value is checked to be "
-        "the current epoch-millisecond time and replaced by NOW). Thorough additionally enumerates, for each of the 21 pairs, every instrument list of "
+        "the current epoch-millisecond time and replaced by NOW); the model's `frame` / `topic` lines are the reading of the model's JSON text by its own "
+        "venue-side reader (`readText`), so the two readers are compared on identical text. Thorough additionally enumerates, for each of the 21 pairs, every instrument list of "
         "length 1-3 over three instruments two of which share a venue symbol (39 x 21 = 819 cases, each followed by the list without its last element), and "
         "for each connector every `req` list of length 1-2 over four topics (20 x 15 = 300). A case is distinct by the SHA-1 of its op lines and "
         "non-trivial when the implementation's trace shows at least two different observation blocks")
@@ -21,7 +22,7 @@ ASSUMPTIONS = [
     "JSON string escaping is modelled for the double quote and the backslash; channel and market names contain no control characters",
     "the frames of one `requests` call are observed as the returned Vec<WsMessage>, in order; `WebSocketSubscriber::subscribe` sends them in this order with "
     "one `websocket.send(..).await?` each (a failing send aborts before validation; sending itself is not driven: the model stops where the socket starts)",
-    "the venue-side reading of a frame (`Wire.topics`) is the documented request grammar of each venue as the sub-check author read it: Binance "
+    "the venue-side reading of a frame (`readText` on the JSON text; `Wire.topics` on the model's constructor; equal by venue_reads_the_text) is the documented request grammar of each venue as the sub-check author read it: Binance "
     "`<symbol>@<stream>`, Bitmex `<table>:<symbol>`, Bybit `<topic>.<symbol>`, Coinbase channels x product_ids, Gateio channel x payload, Kraken "
     "subscription.name x pair, Okx args objects, Bitfinex channel + symbol; the theorems about requested topics assume names that this grammar can "
     "carry (`Decodable`: no `@` in a Binance symbol, Binance stream names start with `@`, no `:` in a Bitmex table name, no `.` in a Bybit topic name), which "
@@ -69,18 +70,44 @@ TECHNIQUE = ("Lean 4: refinement of the eight `Connector::requests` implementati
              "instrument map; decided tables for URLs, pings, timeouts; correspondence of the model with the real mapper and connectors down to the raw JSON text")
 LEVEL_TEXT = ("Proof (sub-check of C13). Lean theorems over a model of ExchangeSub, the eight Connector::requests implementations behind the 15 connectors, "
               "expected_responses, url / ping_interval / subscription_timeout, WebSocketSubMapper::map and WebSocketSubscriber::subscribe up to the first send "
-              "(lean/BarterModel/Props/C13Q.lean), for every connector and every list of subscriptions (any length, duplicates allowed): what the venue reads in the "
-              "frames is exactly the documented request for the subscriptions — verb, one frame for the batching venues or one single-topic frame per "
-              "subscription otherwise, topics in order, Binance symbols lower-cased (requests_refine_spec, requested_is_subscribed, kth_requested, "
-              "one_topic_per_subscription, frame_count, requests_append, binance_symbol_round_trip); the ids of the instrument map are exactly the ids derivable "
-              "from the requested topics, duplicates are merged in the map but not in the request and the last subscription wins (map_ids_are_requested_ids, "
-              "id_in_map_iff_requested, map_smaller_iff_duplicates, map_key_is_last_subscription, last_subscription_spec); the number of responses the validator "
-              "waits for equals the number of acknowledgements the quoted venue payloads document iff Binance/Bybit, or no two subscriptions share an id "
-              "(Bitfinex, Coinbase, Gateio, Kraken, Okx), or — Bitmex — there is exactly one subscription (expected_is_documented_iff, expected_le_documented, "
-              "bitmex_waits_for_one_of_n); the empty list: Binance, Bybit, Bitmex and Okx still send a frame, Binance, Bybit and Bitmex then wait for a response "
-              "(timeout after 10 s if the venue stays silent), everyone else validates at once (empty_request, empty_expected, empty_validates_at_once, "
-              "empty_unanswered_times_out, linked to the C13S validator model); the JSON text of every frame shape for all payloads (…_text); URL, ping, timeout and "
-              "id tables decided over all 15 connectors. The model is tied to the code on every run: real mapper and connectors, frames parsed and compared as raw text.")
+              "(lean/BarterModel/Props/C13Q.lean), for every connector and every list of subscriptions (any length, duplicates allowed). "
+              "NO HYPOTHESIS: reading the JSON TEXT of each frame with the venue's documented grammar (`readText`: a lexer of string literals with their escapes "
+              "plus the grammar's keys; not the model's constructor) gives the frame's verb and topics, for all names (venue_reads_the_text, "
+              "same_text_same_reading); as many topics are requested as subscriptions were given and as many frames sent as the format says - one for the "
+              "batching venues, one per subscription otherwise; appending subscriptions appends frames for the non-batching venues (one_topic_per_subscription, "
+              "frame_count, requests_append); the map's ids are pairwise distinct, the map has as many entries as the request has topics iff no two "
+              "subscriptions share an id and is strictly smaller iff some do, and a shared id belongs to the LAST subscription carrying it (map_ids_distinct, "
+              "map_smaller_iff_duplicates, map_strictly_smaller_iff_duplicates, map_key_is_last_subscription, last_subscription_spec); the number of responses "
+              "the validator waits for equals the number of acknowledgements the quoted venue payloads document iff Binance/Bybit, or no two subscriptions share "
+              "an id (Bitfinex, Coinbase, Gateio, Kraken, Okx), or - Bitmex - there is exactly one subscription; it never exceeds it for a non-empty list "
+              "(expected_is_documented_iff, expected_le_documented, bitmex_waits_for_one_of_n, documented_acks); the empty list: Binance, Bybit, Bitmex and Okx "
+              "still send a frame, Binance, Bybit and Bitmex then wait for a response (timeout after 10 s of silence, `ended` if the venue hangs up), everyone "
+              "else validates at once - the generic validator for all but Bitfinex, Bitfinex's own validator separately (empty_request, empty_expected, "
+              "empty_validates_at_once, empty_validates_at_once_bitfinex, empty_unanswered_times_out; linked to the C13S validator model). "
+              "FOR NAMES THE VENUE GRAMMAR CAN CARRY (`Decodable e s` for every subscription: no `@` in a Binance symbol and a Binance stream name starting "
+              "with `@`, no `:` in a Bitmex table name, no `.` in a Bybit topic name; vacuous for the other five venues, where these statements are "
+              "unfoldings): what the venue reads in the frames - and in their JSON text - is exactly the documented request for the subscriptions: verb, one "
+              "frame for the batching venues or one single-topic frame per subscription otherwise, topics in order, Binance symbols lower-cased "
+              "(requests_refine_spec, text_read_refines_spec, requested_is_subscribed, requested_perm_subscribed, kth_requested, requests_determine_topics). "
+              "FOR A SUPPORTED PAIR (`p in supported`) AND, FOR BINANCE, ASSET NAMES WITHOUT `@` (`CleanName`): what the mapper derives from instruments is "
+              "decodable (supported_decodable); the ids of the instrument map are exactly the ids derivable from the requested topics "
+              "(map_ids_are_requested_ids, id_in_map_iff_requested); and, for instrument kinds the pair supports (`supports p i.kind`), the venue is asked for "
+              "its own channel and symbols, in order (asks_for_venue_names); Binance symbols round-trip through lower/upper case (binance_symbol_round_trip, "
+              "Binance family only). "
+              "Definitional / bookkeeping, not results: every_frame_has_the_verb (the verb is a constant of the frame shape), exchange_sub_id, timeout_table, "
+              "expected_table, the eight ..._text (renderings of the fixed frame shapes), connectors_enumerated, connector_ids_distinct, urls_distinct, "
+              "url_table, ping_table (decided over the 15 connectors; url and ping values are copies of the code's constants). "
+              "The model is tied to the code on every run: real mapper and connectors, frames parsed and compared as raw text.")
 LEVEL_NOTE = ("Trusted: Lean kernel; axioms propext/Classical.choice/Quot.sound only (`decide +kernel` only for the finite tables and the examples); the hand-written "
               "model (tied by sampled correspondence: 3 fixed all-connector cases + 600 quick / 9 000 random + 1 119 exhaustive small-scope cases thorough); the "
-              "harness' venue-side frame reader. Unicode lower-casing, JSON escapes other than quote and backslash, and the actual sending are not modelled.")
+              "harness' venue-side frame reader (serde_json::Value + grammar), now cross-checked on every run against the model's own reader of the same text "
+              "(`readText`). Unicode lower-casing, JSON escapes other than quote and backslash, and the actual sending are not modelled. "
+              "Oracle (spec mode), key by key: `nframes` / `frame` / `topic` for `sub` ops are INDEPENDENT (computed from the op through C13's venueChannel / "
+              "venueSymbol, supported kinds only; the implementation's lines come from the real JSON text through the harness' reader); the same keys for `req` "
+              "ops echo the op's names (content only for Binance / Bitmex / Bybit: the join / split round trip, `Decodable` inputs only, otherwise `nframes` "
+              "alone); `map` is independent but simple (position = key; printed only when the ids are distinct); `expected` for `sub` is the documented "
+              "acknowledgement count of the request (same 1 / n numbers as the code's table; Bitmex constrained only for one subscription; not constrained "
+              "when two subscriptions share an id); `consts`: only `scheme`, `hostvenue` and `timeout` are constrained. CORRESPONDENCE-ONLY (impl vs model, "
+              "never in the spec): `ids` (a copy of `ExchangeSub::id`), `expected` for `exp` ops (the code's table), `id`, `url`, `parsed`, `host`, `ping`, "
+              "`raw`, `connectors` / `impls` / `servers` - url_table / ping_table are copies of the code's constants. Unsupported instrument kinds "
+              "(out of generator) are not constrained by the spec and excluded from the theorems by their hypotheses.")
